@@ -92,6 +92,15 @@ CLAIMS = {
         "for symbolic channel counts, grid length and spacing, bands and spectra; the band is non-empty under the property's preconditions; FDD.mpe hands the stored tables to it.",
    note="Proof modulo numpy.linalg.svd (uninterpreted kernel with its contract); reals for floats; uniform ascending grid, sigma2 > 0.",
    design="6 (C06)", technique="contract-based deductive verification: loop invariants + hand-instantiated reduction contracts (pyvc AST->VC, z3), native replay on random spectra"),
+ "C11": dict(
+   text="Deductive proof from the real source of ssi.SSI_mpe (one order; one order per mode; one order with covariances) and plscf.pLSCF_mpe (one order; one order per mode), "
+        "with inductive invariants for the request loops over symbolic table shapes, request counts, orders and rtol: the outputs are exactly, for each requested frequency in order, "
+        "the retained pole of its order column nearest in frequency (first minimiser), kept iff |pole - f_j| <= 1e-8 + rtol*|f_j| for THAT request, with frequency, damping, mode shape "
+        "and covariances all read from that one table cell; order_out echoes the order(s). SSIdat.mpe / pLSCF.mpe hand the stored tables, the request list, order and rtol to the routine "
+        "and store each returned parameter under its own name. Automatic order selection ('find_min') is outside the verifier's reach: a bounded stand-in (seeded crafted tables on the real "
+        "functions) is labelled bounded and not counted as proved.",
+   note="Trusted: pyvc executor, nanargmin contract, list-enumeration lemma A7, isclose formula; reals for floats. pLSCF_mpe's find_min branch has five open findings (known_findings.jsonl).",
+   design="6 (C11)", technique="contract-based deductive verification: loop invariants over lockstep list appends (pyvc AST->VC, z3); bounded native stand-in for find_min only"),
 }
 NOT_APPLICABLE = {
  "C07": "accuracy tolerance (2.5 % / 15 %) of a floating-point FFT/peak-picking/regression pipeline: no contract over exact reals can state or discharge it (DESIGN.md section 8); its scale-invariance clause is covered under C08",
